@@ -106,6 +106,11 @@ func goTool() string {
 
 func workDir() string {
 	d := filepath.Join(verifDir, "bin", "work")
+	// VERIF_WORK names a separate scratch directory under bin/ (so that a long
+	// sweep and a quick check started meanwhile do not rebuild each other's binaries)
+	if w := os.Getenv("VERIF_WORK"); w != "" && !strings.ContainsAny(w, "/.") {
+		d = filepath.Join(verifDir, "bin", w)
+	}
 	os.MkdirAll(d, 0o755)
 	return d
 }
@@ -394,6 +399,15 @@ func runSub(prop string, sub subCheck, tier string, seed uint64, runsOverride in
 		if code != 1 && minimised {
 			writeReplay(replay, prop, sub.ID, seed, v.Run, tier, opts, rr, "minimised tape did not reproduce in a fresh process; unminimised tape written")
 			code, output = runWorker(bin, env, 10*time.Minute)
+		}
+		// A violation that depends on something no seed controls inside the code under test (the
+		// iteration order of a Go map, the thread interleaving inside a C36b overlap group) need not show
+		// on every execution of its tape: the replay is tried a few times before the check is called broken.
+		for try := 0; code != 1 && try < 6; try++ {
+			code, output = runWorker(bin, env, 10*time.Minute)
+			if code == 1 {
+				fmt.Fprintf(os.Stderr, "note: %s replay reproduced on attempt %d only (the violation depends on a choice no seed controls)\n", sub.ID, try+2)
+			}
 		}
 		if code != 1 {
 			die2("%s: violation at run %d (%s/%s: %s) did not reproduce from its replay file %s (replay exit %d)\n%s", sub.ID, v.Run, rr.Violation.Oracle, rr.Violation.Class, rr.Violation.Msg, replay, code, tail(output, 30))
